@@ -244,6 +244,7 @@ func fcInv(c *fsConfig) bool {
 //@ prop C19
 
 //@ func (c *fsConfig) preopens() ([]experimentalsys.FS, []string)
+//@   requires len(c.fs) == len(c.guestPaths)
 //@   ensures[fresh] verif_fresh_slice(r0) && verif_fresh_slice(r1)
 //@   ensures[lens] len(r0) == len(c.fs) && len(r1) == len(c.guestPaths)
 //@   modifies nothing
